@@ -3,16 +3,23 @@ import RbV.Model.Tsv
 /-! Driver for property C13: BED and GFF/GTF round trip, comments, malformed lines.
 
 ```
-c13 bed <recs> <comments> <fault>            => w:<hex> r:<results> c:<results> rw:x f:<…>
-c13 gff <dialect> <recs> <comments> <fault>  => w:<hex> r:<results> c:<results> rw:<hex|x> f:<…>
+c13 bed <recs> <comments> <fault>                    => w:<hex> r:<results> c:<hex>=<results> rw:x f:<…>
+c13 gff <dialect> <recs> <comments> <fault> <style>  => w:<hex> r:<results> c:<hex>=<results> rw:<hex|x> f:<…> m:<…>
 ```
-(see `harness/src/c13.rs` for the syntax).  Checks, all against the model reader `Tsv.readBed` / `Tsv.readGff`:
+(see `harness/src/c13.rs` for the syntax).  Checks, all against the model reader `Tsv.readBed` / `Tsv.readGff`
+(csv automaton incl. quoting, so every byte string has a defined reading):
 
 * **writer** — the model reader applied to the bytes `w` of the real writer gives the original records
-  (attributes as key ↦ value lists);
-* **reader** — the real reader on `w` (`r`), and on `w` with comment and blank lines inserted (`c`), gives what the
-  model reader gives on `w`; (GFF) writing those records again (`rw`) reads back to the same records, which also
-  pins the raw score/strand strings that the accessors only show in parsed form;
+  (attributes as key ↦ value lists), whatever bytes the text columns contain.  A record whose first column starts
+  with `#` and needs no quotes (`Tsv.hashStart`) is a comment line in the BED/GFF line format, so a file with such a
+  record is **outside the domain**: verdict `ok hash-start-outside-domain` provided nothing panicked or hung and
+  every record before the first such record round-trips exactly; nothing is demanded of that record and of what
+  follows it.  (A first column that starts with `#` but is quoted by the writer is inside the domain.);
+* **reader** — the real reader on `w` (`r`) gives what the model reader gives on `w`; the real reader on `w` with
+  comment and blank lines inserted at record boundaries (`c`) gives what the model reader gives on those bytes
+  (tag `comments-vanish` when that equals the reading of `w`, which is the rule); (GFF) writing those records again
+  (`rw`) reads back to the same records, which also pins the raw score/strand strings that the accessors only show
+  in parsed form;
 * **faults** — for the corrupted / truncated bytes the model reader fixes, line by line, `ok record` / `err` /
   unspecified; a line that must be an error has to be `err`, lines before the first damaged line have to be
   unchanged, later lines may be `ok` with the right content or `err` (a non-flexible reader may reject them).
@@ -126,6 +133,8 @@ form (only then the attributes are compared) -/
 structure Exp where
   res : Res String
   attrsCanon : Bool := true
+  /-- from this record on nothing is determined (see `laxFlags`) -/
+  openTail : Bool := false
 
 def okMatches (e : Exp) (s r : String) : Bool :=
   if e.attrsCanon then r = "ok=" ++ s else r.startsWith "ok=" && dropAttrs r = "ok=" ++ dropAttrs s
@@ -134,8 +143,9 @@ def okMatches (e : Exp) (s r : String) : Bool :=
 def matchResults : List Exp → List String → Bool → Bool → Option String
   | [], [], _, _ => none
   | [], _ :: _, _, _ => some "more-records-than-lines"
-  | _ :: _, [], _, prevErr => if prevErr then none else some "fewer-records-than-lines"
+  | e :: _, [], _, prevErr => if prevErr || e.openTail then none else some "fewer-records-than-lines"
   | e :: es, r :: rs, seenBad, _ =>
+    if e.openTail then none else
     if !(r = "err" || r.startsWith "ok=") then some "unparsable-result" else
     match e.res with
     | .ok s =>
@@ -171,6 +181,57 @@ def gffExp (d : Dialect) (bytes : List Nat) : List Exp :=
     | .err w => { res := .err w }
     | .unspec => { res := .unspec }
 
+/-! ### what the property leaves open in the csv layer
+
+The model reader follows `csv-core` on every byte string.  For bytes that are not the canonical form of any record
+the property does not say how they are to be read, so the comparison with the real reader is relaxed there:
+
+* level 1 (that record is `unspec`): a `"` inside an unquoted field; a byte other than `"`, TAB, LF after the closing
+  quote of a quoted field;
+* level 2 (that record and everything after it is open): a CR outside quotes and comments (the property knows
+  LF-terminated lines only); the input ends inside a quoted field (truncation).
+
+None of this occurs in the bytes a correct writer produces (there the comparison is strict). -/
+
+def laxOf (s : Csv) (c : Nat) : Nat :=
+  match s.st with
+  | .inField => if c = QUOTE then 1 else if c = CR then 2 else 0
+  | .quoteInQuoted => if c = QUOTE || c = TAB || c = LF then 0 else if c = CR then 2 else 1
+  | .startField => if c = CR then 2 else 0
+  | .startRecord => if c = CR then 2 else 0
+  | _ => 0
+
+/-- one level per record of `run s bytes`, and the level pending at the end of the input -/
+def laxRun : Csv → Nat → List Nat → List Nat × Nat
+  | s, cur, [] =>
+    match s.st with
+    | .startRecord | .inComment => ([], cur)
+    | .inQuoted => ([2], 0)
+    | _ => ([cur], 0)
+  | s, cur, c :: r =>
+    let cur' := max cur (laxOf s c)
+    match (step s c).2 with
+    | some _ => let (l, p) := laxRun (step s c).1 0 r; (cur' :: l, p)
+    | none => laxRun (step s c).1 cur' r
+
+def laxFlags (bytes : List Nat) : List Nat × Nat := laxRun Csv.start 0 (bytes ++ [LF])
+
+/-- relax the expectations of a byte string by the levels of its records -/
+def relax (es : List Exp) (bytes : List Nat) : List Exp :=
+  let (fl, pending) := laxFlags bytes
+  let rec go : List Exp → List Nat → List Exp
+    | [], _ => if pending ≥ 2 then [{ res := .unspec, openTail := true }] else []
+    | e :: es, f :: fs =>
+      if f ≥ 2 then [{ res := .unspec, openTail := true }]
+      else if f = 1 then { e with res := .unspec } :: go es fs
+      else e :: go es fs
+    | e :: es, [] => e :: go es []
+  go es fl
+
+def isLax (bytes : List Nat) : Bool :=
+  let (fl, pending) := laxFlags bytes
+  fl.any (· ≥ 1) || pending ≥ 1
+
 def allOk (es : List Exp) : Option (List String) :=
   es.mapM fun e => match e.res with | .ok s => some s | _ => none
 
@@ -198,7 +259,8 @@ def faultKind (fault : String) : String := (fault.splitOn ":").headD "?"
 structure Obs where
   w : List Nat
   r : List String
-  c : List String
+  /-- `w` with comment / blank lines inserted, and the real reader's results on that -/
+  c : List Nat × List String
   rw : Option (List Nat)
   f : String
   /-- (GFF) bytes in the intended format written by the harness, and the real reader's results on them -/
@@ -213,7 +275,8 @@ def parseObs (out : String) : Option Obs :=
     let rw ← fieldVal rw "rw"
     let f ← fieldVal f "f"
     let rw ← if rw = "x" then some none else (parseHex rw).map some
-    pure ⟨w, results r, results c, rw, f, none⟩
+    let c ← bytesRes c
+    pure ⟨w, results r, c, rw, f, none⟩
   | [w, r, c, rw, f, m] => do
     let w ← (fieldVal w "w").bind parseHex
     let r ← fieldVal r "r"
@@ -222,12 +285,15 @@ def parseObs (out : String) : Option Obs :=
     let f ← fieldVal f "f"
     let m ← fieldVal m "m"
     let rw ← if rw = "x" then some none else (parseHex rw).map some
-    let mm ← match m.splitOn "=" with
-      | b :: rest@(_ :: _) => (parseHex b).map fun bytes => (bytes, results ("=".intercalate rest))
-      | _ => none
-    pure ⟨w, results r, results c, rw, f, some mm⟩
+    let mm ← bytesRes m
+    let c ← bytesRes c
+    pure ⟨w, results r, c, rw, f, some mm⟩
   | _ => none
 where
+  bytesRes (m : String) : Option (List Nat × List String) :=
+    match m.splitOn "=" with
+    | b :: rest@(_ :: _) => (parseHex b).map fun bytes => (bytes, results ("=".intercalate rest))
+    | _ => none
   fieldVal (tok key : String) : Option String :=
     match field tok with
     | some (k, v) => if k = key then some v else none
@@ -247,7 +313,7 @@ def faultRuns (fault : String) (o : Obs) : Option (List (List Nat × List String
     | _ => none
 
 def faultReasons (mk : List Nat → List Exp) (runs : List (List Nat × List String)) : List String :=
-  runs.filterMap fun (bytes, res) => matchResults (mk bytes) res false false
+  runs.filterMap fun (bytes, res) => matchResults (relax (mk bytes) bytes) res false false
 
 def tagsOf (kind : String) (fault : String) (nrec : Int) (comments : String) (es : List (List Exp)) : String :=
   " " ++ kind ++ " fault-" ++ faultKind fault
@@ -257,15 +323,65 @@ def tagsOf (kind : String) (fault : String) (nrec : Int) (comments : String) (es
     ++ (if es.any (fun l => l.any fun e => match e.res with | .err _ => true | _ => false) then " err-line" else "")
     ++ (if es.any (fun l => l.any fun e => match e.res with | .unspec => true | _ => false) then " unspec-line" else "")
     ++ (if es.any (fun l => l.any fun e => !e.attrsCanon) then " attr-not-of-written-form" else "")
+    ++ (if es.any (fun l => l.any fun e => e.openTail) then " lax-tail" else "")
     ++ (if (match parseCuts fault with | some l => decide (l.length ≥ 20) | none => false) then " many-cuts" else "")
+
+/-- tags for the csv-sensitive classes of field contents -/
+def quoteTags (fields : List (List Nat)) (firsts : List (List Nat)) (w : List Nat) : String :=
+  let has (p : List Nat → Bool) : Bool := fields.any p
+  (if has (·.contains QUOTE) then " q-quote" else "")
+    ++ (if has (fun f => f.head? == some QUOTE) then " q-quote-first" else "")
+    ++ (if has (·.contains TAB) then " q-tab" else "")
+    ++ (if has (·.contains LF) then " q-lf" else "")
+    ++ (if has (·.contains CR) then " q-cr" else "")
+    ++ (if has (fun f => f.contains 92 && f.any needsQuote) then " q-bslash" else "")
+    ++ (if has (fun f => f.contains 92 && f.contains QUOTE) then " q-bslash-quote" else "")
+    ++ (if has (·.contains HASH) then " q-hash" else "")
+    ++ (if firsts.any (fun f => f.head? == some HASH && f.any needsQuote) then " q-hash-first-quoted" else "")
+    ++ (if has (fun f => f.head? == some SPACE || f.getLast? == some SPACE) then " q-blank" else "")
+    ++ (if has (·.isEmpty) then " q-empty" else "")
+    ++ (if has (fun f => f.any fun c => c < 32 && c != TAB && c != LF && c != CR || c == 127) then " q-ctrl" else "")
+    ++ (if w.contains QUOTE then " w-quoted" else "")
+
+/-- real reader on the bytes with comment lines: must agree with the model reader on those bytes -/
+def commentsReason (expC : List Exp) (real : List String) : List String :=
+  match matchResults expC real false false with
+  | some x => ["comments:" ++ x]
+  | none => []
+
+/-- the comment and blank lines vanish: the model reads the bytes with them as it reads the bytes without -/
+def commentsTag (same : Bool) : String := if same then " comments-vanish" else " comments-absorbed"
+
+/-- a file with a `hashStart` record (its written line is a comment line of the format) is outside the domain: the
+`n` records before the first such record must round-trip exactly — model reader on the writer's bytes and real
+reader — and nothing is demanded of the rest -/
+def outsideDomain (kind : String) (n : Nat) (wExp : List Exp) (origPrefix : Option (List String))
+    (r : List String) : String :=
+  let modelOk := origPrefix.isSome && allOk (wExp.take n) = origPrefix && decide (n ≤ wExp.length)
+  let realOk := origPrefix.map (·.map ("ok=" ++ ·)) == some (r.take n)
+  if !modelOk then "reject outside-domain:writer-changed-record-before-hash-start"
+  else if !realOk then "reject outside-domain:reader-changed-record-before-hash-start"
+  else "ok " ++ kind ++ " hash-start hash-start-outside-domain" ++ (if n ≥ 1 then " hash-start-prefix-checked" else "")
+
+/-- number of records before the first one for which `p` holds, if any -/
+def firstIdx {α : Type} (p : α → Bool) (l : List α) : Option Nat :=
+  if l.any p then some (l.takeWhile (fun x => !p x)).length else none
 
 def bedVerdict (recs : List BedRec) (comments fault : String) (o : Obs) : String :=
   let wExp := bedExp o.w
+  let cExp := bedExp o.c.1
   let orig := recs.map showBed
+  match firstIdx (fun r => hashStart (bedFields r)) recs with
+  | some n => outsideDomain "bed" n wExp (some (orig.take n)) o.r
+  | none =>
   let reasons : List String :=
-    (if allOk wExp = some orig then [] else ["writer:lost-or-changed-data"])
-    ++ (match matchResults wExp o.r false false with | some x => ["read:" ++ x] | none => [])
-    ++ (match matchResults wExp o.c false false with | some x => ["comments:" ++ x] | none => [])
+    (if allOk wExp = some orig then []
+     else ["writer:lost-or-changed-data"])
+    -- the writer's bytes read as the original records: then the real reader has to return exactly those (round
+    -- trip); otherwise it is compared with the model on what the bytes determine
+    ++ (match matchResults (if allOk wExp = some orig then wExp else relax wExp o.w) o.r false false with
+        | some x => ["read:" ++ x] | none => [])
+    ++ commentsReason (relax cExp o.c.1) o.c.2
   match faultRuns fault o with
   | none => "bad-op fault-output"
   | some runs =>
@@ -275,8 +391,11 @@ def bedVerdict (recs : List BedRec) (comments fault : String) (o : Obs) : String
     | none =>
       let k := match recs with | r :: _ => r.aux.length | [] => 0
       "ok" ++ (if k ≥ 1 && !recs.isEmpty then " nt" else "")
-        ++ tagsOf "bed" fault recs.length comments (runs.map fun (b, _) => bedExp b)
+        ++ tagsOf "bed" fault recs.length comments (runs.map fun (b, _) => relax (bedExp b) b)
+        ++ (if runs.any (fun (b, _) => isLax b) then " lax-fault" else "")
         ++ (if k = 0 then " k0" else if k ≥ 3 then " k>=3" else " k1-2")
+        ++ commentsTag (readBed o.c.1 == readBed o.w)
+        ++ quoteTags (recs.flatMap fun r => r.chrom :: r.aux) (recs.map (·.chrom)) o.w
 
 def gffVerdict (dn : String) (d : Dialect) (recs : List GffRead) (comments fault style : String) (o : Obs) : String :=
   match o.m with
@@ -289,6 +408,9 @@ def gffVerdict (dn : String) (d : Dialect) (recs : List GffRead) (comments fault
   let orig := recs.mapM showGff
   let origFirst := (recs.map firstOnly).mapM showGff
   let multi := recs.any fun r => (group r.pairs).any fun kv => kv.2.length ≥ 2
+  match firstIdx (fun r => hashStart [r.seqname]) recs with
+  | some n => outsideDomain dn n wExp ((recs.take n).mapM showGff) o.r
+  | none =>
   let writerReason : List String :=
     if orig.isSome && allOk wExp = orig then []
     else if multi && origFirst.isSome && allOk wExp = origFirst then ["writer:attr-multi-first-only"]
@@ -304,8 +426,9 @@ def gffVerdict (dn : String) (d : Dialect) (recs : List GffRead) (comments fault
           (·.mapM showGff)
       if multi && (allOk wExp).isSome && allOk e2 = firsts then ["rewrite:attr-multi-first-only"] else ["rewrite:changed-data"]
   let reasons : List String := writerReason
-    ++ (match matchResults wExp o.r false false with | some x => ["read:" ++ x] | none => [])
-    ++ (match matchResults wExp o.c false false with | some x => ["comments:" ++ x] | none => [])
+    ++ (match matchResults (if writerReason.isEmpty then wExp else relax wExp o.w) o.r false false with
+        | some x => ["read:" ++ x] | none => [])
+    ++ commentsReason (relax (gffExp d o.c.1) o.c.1) o.c.2
     ++ (match matchResults mExp mRes false false with | some x => ["read-intended:" ++ x] | none => [])
     ++ rwReason
   match faultRuns fault o with
@@ -317,9 +440,14 @@ def gffVerdict (dn : String) (d : Dialect) (recs : List GffRead) (comments fault
     | none =>
       let nvals := recs.map fun r => r.pairs.length
       "ok" ++ (if nvals.any (· ≥ 2) then " nt" else "")
-        ++ tagsOf dn fault recs.length comments (runs.map fun (b, _) => gffExp d b)
+        ++ tagsOf dn fault recs.length comments (runs.map fun (b, _) => relax (gffExp d b) b)
+        ++ (if runs.any (fun (b, _) => isLax b) then " lax-fault" else "")
         ++ (if multi then " multi-valued" else "") ++ " style-" ++ style
         ++ (if recs.any (fun r => r.pairs.isEmpty) then " no-attrs" else "")
+        ++ commentsTag (readGff d o.c.1 == readGff d o.w)
+        ++ quoteTags (recs.flatMap fun r => [r.seqname, r.source, r.ftype, r.score, r.strand]) (recs.map (·.seqname)) o.w
+        ++ (if recs.any (fun r => r.pairs.any fun kv => (kv.1 ++ kv.2).any fun c => c == QUOTE || c == LF || c == CR || c == 92)
+            then " q-attr" else "")
 
 def verdict (toks : List String) (out : String) : String :=
   match toks with
